@@ -34,7 +34,7 @@ def mkEnv (toks : List String) : Env :=
       | some (_, s) => (parseSt s).getD .running
       | none => .running
     guard := fun i => match gs.find? (fun p => p.1 = i) with
-      | some (_, s) => s = "1"
+      | some (_, s) => s = "1" || s = "S" || s = "R"     -- a condition answers a bool or a Status: only False / FAILURE close it
       | none => true
     now := ((get "t=").toInt?).getD 0 }
 
@@ -42,8 +42,9 @@ def errStr : Err → String
 | .internal => "internal" | .policy => "RuntimeError" | .key => "KeyError" | .type => "TypeError"
 | .fuel => "fuel"
 
+/-- tips of every subtree; entry `0` is `BehaviourTree.tip()`, i.e. the root's tip -/
 def tipsStr (n : Node) : String :=
-  String.intercalate " " ((preorder n).map (fun m => s!"{m.id}={optNat m.tip}"))
+  String.intercalate " " (s!"0={optNat n.tip}" :: (preorder n).map (fun m => s!"{m.id}={optNat m.tip}"))
 
 def report (st : St) (tr : List Ev) : List String :=
   [ "T " ++ String.intercalate " " (tr.map evStr),
